@@ -1649,10 +1649,26 @@ func (env *SpecEnv) evalCall(x *ast.CallExpr) Val {
 		}
 		if fname == "itercount" {
 			n := 0
+			innerCut := false
 			for _, ev := range tr[start:] {
 				if evMatch(ev.Name) {
 					n++
 				}
+				if strings.HasPrefix(ev.Name, "loop*") && ev.Name != marker {
+					// an inner loop cut during this iteration: does its body produce the event?
+					for produced := range env.cur().loopEvBy[ev.Name] {
+						if evMatch(produced) {
+							innerCut = true
+						}
+					}
+				}
+			}
+			st := env.cur()
+			if innerCut {
+				// an inner loop was cut during this iteration and may produce the event any number of times
+				t := st.ctx.freshConst("icnt!"+name, SInt)
+				st.assume(Ge(t, I(int64(n))))
+				return intVal(t)
 			}
 			return intVal(I(int64(n)))
 		}
